@@ -1,6 +1,101 @@
+(* C06 - monotonic buffer resources (ExclusiveMonotonicBufferResource; src/babylon/reusable/memory_resource.{h,cpp}).
+   Only statements here; every proof is `exact <lemma of MR/MRProofs.v>`.
+
+   Setting.  `step P s op` is the executable model of one operation on a resource whose page allocator has page
+   size P; `reach P s` = s is reachable from the freshly constructed resource through ANY sequence of allocate /
+   register_destructor / contains / release / move operations whose oracle answers (pages, upstream blocks) are
+   what a correct allocator gives: fresh (disjoint from everything currently lent out), aligned, below 2^62
+   (`op_ok`, `oracle_ok`).  Preconditions visible in the statements: P = 2^k, 7 <= k <= 32 (what
+   NewDeletePageAllocator produces and set_page_allocator asserts), alignment 2^j with j <= 32, bytes < 2^61.
+   Ghost fields of the state: `blocks` (address, bytes) handed to the user since the last release, `books`
+   intrusive arrays, `gpages` / `gups` pages and upstream blocks obtained, `gdtors` destructors registered;
+   c06_ghost_is_trace ties them to the allocator events of the trace.
+
+   What is NOT proved here:
+   * the shared / swiss variants (one exclusive resource per thread): covered by monitors over real threads only;
+   * "keeps its contents" is proved as: every store the resource performs lies inside one of its own bookkeeping
+     arrays and is disjoint from every live block (the model has no byte memory);
+   * move: move-assignment into a prepared target is the identity on the state (all theorems cover it); move
+     CONSTRUCTION does not carry _upstream over: c06_release_right_upstream_partial is stated for histories without
+     it and c06_move_ctor_refuted exhibits the failing history (replayed on the real class by the check, recorded
+     in KNOWN_FINDINGS.txt under sig=move-ctor-drops-upstream). *)
 From Coq Require Import ZArith List.
 Require Import Verif.Gen.Gen_memory_resource Verif.MR.MRModel Verif.MR.MRProofs.
+Import ListNotations.
 Local Open Scope Z_scope.
-Theorem c06_cap_pos : 1 <= PAGE_ARRAY_CAPACITY.
-Proof. exact mr_cap_pos. Qed.
-Print Assumptions c06_cap_pos.
+
+Definition page_size_ok (P : Z) : Prop := exists k, 7 <= k <= 32 /\ P = 2 ^ k.
+
+(* Every block returned by allocate is aligned as requested, lies in memory the resource owns (a page or
+   oversize block obtained and not returned), overlaps no other live block and none of the bookkeeping. *)
+Theorem c06_block_ok : forall P, page_size_ok P -> forall s b a o s' r e,
+  reach P s -> 0 <= b < 2 ^ 61 -> pow2 a -> oracle_ok P s b a o ->
+  step P s (Alloc b a o) = (s', r, e) ->
+  r mod a = 0 /\ owned (regions P s') (r, b) /\
+  Forall (disj (r, b)) (blocks s) /\ Forall (disj (r, b)) (books s') /\
+  blocks s' = (r, b) :: blocks s.
+Proof. exact mr_block_ok. Qed.
+Print Assumptions c06_block_ok.
+
+(* ... and this stays true while anything else happens: at every reachable state all live blocks and all
+   bookkeeping arrays are pairwise disjoint, inside owned memory, and owned regions are pairwise disjoint. *)
+Theorem c06_live_disjoint : forall P, page_size_ok P -> forall s, reach P s ->
+  PW (blocks s ++ books s) /\ Forall (owned (regions P s)) (blocks s ++ books s) /\
+  PW (regions P s) /\ (forall x y, In x (blocks s) -> In y (books s) -> disj x y).
+Proof. exact mr_live_disjoint. Qed.
+Print Assumptions c06_live_disjoint.
+
+(* Blocks keep their contents: no store performed by any later operation touches a live block. *)
+Theorem c06_contents_stable : forall P, page_size_ok P ->
+  forall s o s' r e addr len, reach P s -> op_ok P s o -> step P s o = (s', r, e) ->
+  In (EWrite addr len) e -> Forall (disj (addr, len)) (blocks s').
+Proof. exact mr_contents_stable. Qed.
+Print Assumptions c06_contents_stable.
+
+(* The ghost lists are the allocator / upstream / registration events of the trace. *)
+Theorem c06_ghost_is_trace : forall P s o s' r e, step P s o = (s', r, e) -> o <> Release ->
+  gpages s' = rev (ev_pages e) ++ gpages s /\ gups s' = rev (ev_ups e) ++ gups s /\
+  gdtors s' = match o with Reg ptr fn _ => (ptr, fn) :: gdtors s | _ => gdtors s end.
+Proof. exact mr_ghost_is_trace. Qed.
+Print Assumptions c06_ghost_is_trace.
+
+(* release(): the registered destructors run exactly once each, newest first, before anything is freed; then
+   the pages go back in batches whose concatenation is exactly the list of pages obtained; then every oversize
+   block goes back with the (bytes, alignment) it was obtained with; the state afterwards is the reset one. *)
+Theorem c06_release_exact : forall P, page_size_ok P -> forall s, reach P s ->
+  exists batches,
+    step P s Release =
+      (reset s, 0,
+       map (fun t => EDtor (fst t) (snd t)) (gdtors s) ++ map EPageFree batches ++
+       map (fun e => match e with (p, b, a) => EUpFree (up s) p b a end) (map up_entry (gups s))) /\
+    concat batches = gpages s.
+Proof. exact mr_release_exact. Qed.
+Print Assumptions c06_release_exact.
+
+(* ... to the upstream each block came from - for histories without move construction *)
+Theorem c06_release_right_upstream_partial : forall P s, reach_nm P s ->
+  Forall (fun e => fst (fst (fst e)) = up s) (gups s).
+Proof. exact mr_release_right_upstream. Qed.
+Print Assumptions c06_release_right_upstream_partial.
+
+(* afterwards the resource is reusable and its accounting is zero: it is the initial state again *)
+Theorem c06_release_reusable : forall P, page_size_ok P -> forall s, reach_nm P s ->
+  fst (fst (step P s Release)) = init.
+Proof. exact mr_release_init. Qed.
+Print Assumptions c06_release_reusable.
+
+(* the full statement ("every oversize block to the upstream resource") is false with move construction:
+   allocate(129, 8) on a resource with page size 128 and a configured upstream; move-construct; release. *)
+Theorem c06_move_ctor_refuted :
+  ops_ok 128 init witness_ops /\
+  exists p b a, In (EUpAlloc 1 p b a) (trace 128 witness_ops) /\ In (EUpFree 0 p b a) (trace 128 witness_ops).
+Proof. exact mr_move_ctor_refuted. Qed.
+Print Assumptions c06_move_ctor_refuted.
+
+(* non-vacuity: real page sizes satisfy the hypothesis, fresh oracles exist, non-trivial states are reachable *)
+Example c06_params_4096 : page_size_ok 4096.
+Proof. exists 12. split; [split; discriminate|reflexivity]. Qed.
+Example c06_oracle_satisfiable : oracle_ok 128 init 129 8 witness_oracle.
+Proof. apply witness_oracle_ok; [exists 3; split; [split; discriminate|reflexivity]|discriminate|split; [discriminate|reflexivity]]. Qed.
+Example c06_reach_nontrivial : exists s, reach 128 s /\ length (blocks s) = 1%nat /\ length (gups s) = 1%nat.
+Proof. exact witness_reach. Qed.
